@@ -11,6 +11,7 @@ package props
 // from the stored account fields), and after a successful delegation by V: balance(V) >= unvested.
 
 import (
+	"os"
 	"encoding/json"
 	"fmt"
 	"math/big"
@@ -104,7 +105,7 @@ func genC08(t *rapid.T) C08Case {
 		}
 		no := rapid.IntRange(1, 5).Draw(t, "nops")
 		for j := 0; j < no; j++ {
-			op := C08Op{K: rapid.SampledFrom([]string{"send", "send", "multisend", "eth-send", "eth-send", "highfee", "gov-deposit", "dao-fund", "delegate", "delegate", "eth-delegate", "exec-delegate", "undelegate", "liquidate", "merge", "clawback", "receive"}).Draw(t, "k")}
+			op := C08Op{K: rapid.SampledFrom([]string{"send", "send", "multisend", "eth-send", "eth-send", "highfee", "gov-deposit", "dao-fund", "delegate", "delegate", "eth-delegate", "exec-delegate", "undelegate", "liquidate", "merge", "merge-stake", "clawback", "receive"}).Draw(t, "k")}
 			op.Mode = rapid.SampledFrom([]string{"spendable", "spendable", "spendable", "delegatable", "abs"}).Draw(t, "mode")
 			op.Off = rapid.SampledFrom([]int64{0, 0, 1, -1, 2, -2, 1000000}).Draw(t, "off")
 			op.Abs = rapid.SampledFrom([]string{"1", "1000", "500000", "1000000", "9000000"}).Draw(t, "abs")
@@ -230,7 +231,7 @@ func runC08(st *ev.Stats, c C08Case) string {
 			gas := uint64(400000)
 			fee := new(big.Int).Mul(price, new(big.Int).SetUint64(gas))
 			// "spend exactly what is spendable": leave room for the fee in the boundary modes
-			if op.Mode == "spendable" && op.K != "eth-send" && op.K != "eth-delegate" && op.K != "receive" && op.K != "merge" && op.K != "clawback" {
+			if op.Mode == "spendable" && op.K != "eth-send" && op.K != "eth-delegate" && op.K != "receive" && op.K != "merge" && op.K != "merge-stake" && op.K != "clawback" {
 				amt = new(big.Int).Sub(amt, fee)
 				if amt.Sign() <= 0 {
 					amt = big.NewInt(1)
@@ -323,6 +324,18 @@ func runC08(st *ev.Stats, c C08Case) string {
 			case "merge":
 				lk := genFixedPeriods(amt, []int64{60, 86400})
 				code, log = cosmosAs(F, 1200000, price, vestingtypes.NewMsgConvertIntoVestingAccount(F.Addr, V.Addr, now, toPeriods(lk), nil, true, false, nil))
+			case "merge-stake":
+				// a further grant, part of which vests at once and is delegated by the message itself; the rest vests later
+				q := new(big.Int).Quo(amt, big.NewInt(4))
+				if q.Sign() == 0 {
+					continue
+				}
+				vest := []PeriodJ{{Len: 1, Amt: []CoinJ{{chain.Denom, q.String()}}}, {Len: 2000, Amt: []CoinJ{{chain.Denom, q.String()}}},
+					{Len: 2000, Amt: []CoinJ{{chain.Denom, q.String()}}}, {Len: 2000, Amt: []CoinJ{{chain.Denom, new(big.Int).Sub(amt, new(big.Int).Mul(q, big.NewInt(3))).String()}}}}
+				lk := []PeriodJ{{Len: 60, Amt: []CoinJ{{chain.Denom, amt.String()}}}}
+				vs := vals()
+				isDelegation = true
+				code, log = cosmosAs(F, 1500000, price, vestingtypes.NewMsgConvertIntoVestingAccount(F.Addr, V.Addr, now.Add(-time.Second), toPeriods(lk), toPeriods(vest), true, true, vs[op.Val%len(vs)].GetOperator()))
 			case "clawback":
 				code, log = cosmosAs(F, 600000, price, vestingtypes.NewMsgClawback(F.Addr, V.Addr, U.Addr))
 			case "receive":
@@ -333,6 +346,9 @@ func runC08(st *ev.Stats, c C08Case) string {
 			}
 			if code != 0 {
 				st.Class("refused:" + op.K)
+				if os.Getenv("VERIF_DEBUG") != "" {
+					fmt.Printf("DEBUG C08 refused %s: %s\n", op.K, trunc(log))
+				}
 				_ = log
 				continue
 			}
